@@ -390,8 +390,17 @@ fn normalise(name: &str, content: &[u8], lc: &Lc) -> String {
     }
 }
 
-/// pre-existing content so that append/truncate defaults and on-start-up rotation are observable
+thread_local! {
+    /// whether the log files exist (with content) before the configuration is loaded
+    static SEEDED: std::cell::Cell<bool> = const { std::cell::Cell::new(true) };
+}
+
+/// pre-existing content so that append/truncate defaults and on-start-up rotation are observable;
+/// every configuration is also checked over an empty directory (min_size defaults, first-open behaviour)
 fn seed_files(lc: &Lc, sb: &Sandbox) {
+    if !SEEDED.with(|s| s.get()) {
+        return;
+    }
     for a in &lc.apps {
         if !matches!(a.kind, Kind::Capture) {
             std::fs::write(sb.path(&format!("{}.log", a.name)), b"previous run\n").unwrap();
@@ -490,6 +499,18 @@ fn lc_json(lc: &Lc) -> Value {
 
 /// One logical configuration: three formats + programmatic must behave identically and as the reference says.
 pub fn check_lc(lc: &Lc) -> Option<(String, String)> {
+    for seeded in [true, false] {
+        SEEDED.with(|s| s.set(seeded));
+        let r = check_lc_once(lc);
+        SEEDED.with(|s| s.set(true));
+        if let Some((sig, d)) = r {
+            return Some((sig, format!("[log files {} before loading] {}", if seeded { "exist" } else { "do not exist" }, d)));
+        }
+    }
+    None
+}
+
+fn check_lc_once(lc: &Lc) -> Option<(String, String)> {
     hooks::set_now(Some(super::rolling::clock_at(17)));
     let r = (|| {
         let prog = match observe_programmatic(lc) {
@@ -871,7 +892,7 @@ pub fn run(ctx: &Ctx) -> Report {
     // the thorough catalogue is cheap enough for every run
     let cat = catalogue(Tier::Thorough);
     let bad: Vec<(usize, (String, String))> = cat.par_iter().enumerate().filter_map(|(i, lc)| if ctx.over_cap() { None } else { check_lc(lc).map(|m| (i, m)) }).collect();
-    rep.add("evaluations", cat.len() as u64 * 4);
+    rep.add("evaluations", cat.len() as u64 * 8);
     rep.set("logical_configurations", cat.len() as u64);
     rep.add("distinct_nontrivial", cat.len() as u64);
     for (i, (sg, d)) in bad {
